@@ -331,6 +331,12 @@ pzgstrf_MemInit(int_t n, int_t annz, superlumt_options_t *superlumt_options,
 	    xusub      = (int_t *)zuser_malloc((n+1) * iword, HEAD);
 	    xusub_end  = (int_t *)zuser_malloc((n) * iword, HEAD);
 	}
+	if ( !xsup || !xsup_end || !supno || !xlsub || !xlsub_end ||
+	     !xlusup || !xlusup_end || !xusub || !xusub_end ) {
+	    /* work[] cannot even hold the column pointers */
+	    printf("Not enough memory to perform factorization.\n");
+	    return (pzgstrf_memory_use(nzlmax, nzumax, nzlumax) + n);
+	}
 
 	lusup = (doublecomplex *) pzgstrf_expand( &nzlumax, LUSUP, 0, 0, Glu );
 	ucol  = (doublecomplex *) pzgstrf_expand( &nzumax, UCOL, 0, 0, Glu );
@@ -347,7 +353,9 @@ pzgstrf_MemInit(int_t n, int_t annz, superlumt_options_t *superlumt_options,
 		SUPERLU_FREE(lsub);
 		SUPERLU_FREE(usub);
 	    } else {
-		zuser_free(nzumax*dword+(nzlmax+nzumax)*iword, HEAD);
+		/* hand back what was granted, and only that */
+		zuser_free((ucol ? nzumax*dword : 0) + (lsub ? nzlmax*iword : 0)
+			   + (usub ? nzumax*iword : 0), HEAD);
 	    }
 	    nzumax /= 2;    /* reduce request */
 	    nzlmax /= 2;
